@@ -301,6 +301,22 @@ theorem c16_schedulable_diagram_runs (d : Diagram) (H : Nat → Option Handler)
     ∃ recs, (execute d H ext enforce).out = .ok recs :=
   execute_live hext hs
 
+/-- `register_module` refuses exactly the names that are not modules of the diagram (a WiringError), and otherwise
+    installs the handler for that module and no other. -/
+theorem c16_register_module (d : Diagram) (H : Nat → Option Handler) (n : Nat) (h : Handler) :
+    ((∃ e, registerModule d H n h = .error e) ↔ d.findMod n = none) ∧
+    (∀ e, registerModule d H n h = .error e → e.isWiringError = true) ∧
+    (∀ H', registerModule d H n h = .ok H' → H' n = some h ∧ ∀ k, k ≠ n → H' k = H k) := by
+  unfold registerModule
+  cases hf : d.findMod n with
+  | none => simp [Err.isWiringError]
+  | some m =>
+    simp only [Option.isNone_some, Bool.false_eq_true, if_false]
+    refine ⟨by simp, by simp, ?_⟩
+    intro H' hH
+    cases hH
+    exact ⟨by simp, fun k hk => by simp [hk]⟩
+
 /-! ## capabilities -/
 
 /-- Required capabilities are the union over the modules (as a set: no repetitions). -/
@@ -346,6 +362,15 @@ private def wireProbe (enforce : Bool) (s t : PortType) : Outcome :=
   | .ok _ => .unknown
   | .error e => if e.isWiringError then .rejected else .unknown
 
+/-- destination module declared first, its port wired from module 0 and also given an external value -/
+private def wireAndExternalProbe (s t : PortType) : Outcome :=
+  let d : Diagram := { modules := [⟨1, [(0, t)], [], []⟩, ⟨0, [], [(0, s)], []⟩], wires := [⟨0, 0, 1, 0⟩] }
+  let r := execute d (fun n => if n = 0 then some (fun _ => .ret [(0, .raw 7)]) else some (fun _ => .ret []))
+    [(1, [(0, .raw 9)])] true
+  match r.out with
+  | .ok _ => .unknown
+  | .error e => if e.isWiringError && r.calls.isEmpty then .rejected else .unknown
+
 /-- the enums are not empty (an extractor that found nothing fails here) -/
 theorem c16_table_domain : 0 < nDT ∧ 0 < nIL := by decide
 
@@ -368,6 +393,10 @@ theorem c16_table_coerce_input :
 theorem c16_table_wire_checked : Gen.WiringFlow.wireChecked = tab (wireProbe true) := by decide +kernel
 
 theorem c16_table_wire_unchecked : Gen.WiringFlow.wireUnchecked = tab (wireProbe false) := by decide +kernel
+
+/-- the repaired pre-flight check on the real code: for every pair of labels, a port with a wire and an external
+    value makes `execute` raise a WiringError before any handler is invoked, as in the model -/
+theorem c16_table_wire_and_external : Gen.WiringFlow.wireAndExternal = tab wireAndExternalProbe := by decide +kernel
 
 theorem c16_table_coerce_output_raw :
     Gen.WiringFlow.coerceOutputRaw = rawTab (fun t => ofCoerce (Wiring.coerceOutput (.raw 13) t)) := by
